@@ -24,7 +24,12 @@ inductive E where
   | obj (items : List (String × E))
   | index (e i : E)
   | attr (e : E) (name : String)
-  | forT (v : String) (coll body : E) (filter : Option E)
+  | forE (k : Option String) (v : String) (coll : E) (keyE : Option E) (body : E) (filter : Option E) (group : Bool)
+      -- `[for k, v in coll : body if filter]`, or with `keyE`: `{for k, v in coll : keyE => body... if filter}`
+  | anon                           -- the element a splat is working on
+  | splat (src each : E)           -- `src[*]…` / `src.*…`: `each` is the traversal, applied to `anon`
+  | tmplS (parts : List E)         -- the body of a template directive: always a string, also with a single interpolation
+  | join (e : E)                   -- `%{ for … }body%{ endfor }`: the iteration results, concatenated
   | tmpl (parts : List E)          -- a quoted template: literal parts are `str`, the others interpolations
   | strip (l r : Bool) (e : E)     -- an interpolation written `${~ e ~}`: which strip markers it carries
   deriving Repr
@@ -36,6 +41,8 @@ inductive V where
   | str (s : String)
   | tuple (vs : List V)
   | obj (items : List (String × V))   -- sorted by key
+  | listv (vs : List V)               -- a value of a list type (only variables have one)
+  | mapv (items : List (String × V))  -- a value of a map type, sorted by key
   deriving Repr
 
 /-- static type of a result as far as conditionals care -/
@@ -63,6 +70,8 @@ mutual
     | .str a, .str b => a == b
     | .tuple a, .tuple b => V.beqList a b
     | .obj a, .obj b => V.beqItems a b
+    | .listv a, .listv b => V.beqList a b       -- values of different types are never equal: a list is not a tuple
+    | .mapv a, .mapv b => V.beqItems a b
     | _, _ => false
   def V.beqList : List V → List V → Bool
     | [], [] => true
@@ -174,11 +183,11 @@ def convTo (t : Ty) (v : V) : V :=
 
 def indexV (c k : V) : Res :=
   match c with
-  | .tuple vs =>
+  | .tuple vs | .listv vs =>
     match asNum k with
     | some i => if 0 ≤ i ∧ i.toNat < vs.length then .ok (vs.getD i.toNat .null) else .err .dyn
     | none => .err .dyn
-  | .obj items =>
+  | .obj items | .mapv items =>
     match asTmplStr k with
     | some key => match items.lookup key with
       | some v => .ok v
@@ -188,7 +197,7 @@ def indexV (c k : V) : Res :=
 
 def attrV (c : V) (name : String) : Res :=
   match c with
-  | .obj items => match items.lookup name with
+  | .obj items | .mapv items => match items.lookup name with
     | some v => .ok v
     | none => .err .dyn
   | _ => .err .dyn
@@ -220,6 +229,15 @@ def normTmpl : Option E → List E → List E
         .str s2
       | e => e.unstrip
     p' :: normTmpl (some p) rest
+
+/-- what a `for` iterates over: (key, value) pairs in iteration order; `none`: not iterable -/
+def elems : V → Option (List (V × V))
+  | .tuple vs | .listv vs => some ((List.range vs.length).zip vs |>.map fun (i, v) => (.num i, v))
+  | .obj items | .mapv items => some (items.map fun (k, v) => (.str k, v))
+  | _ => none
+
+/-- the name the anonymous symbol of a splat is bound to (not a legal identifier) -/
+def anonName : String := "@"
 
 abbrev Env := List (String × V)
 
@@ -301,32 +319,99 @@ def eval (fuel : Nat) (env : Env) (e : E) : Res :=
       | .ok v => attrV v name
       | .err _ => .err .dyn
       | r => r
-    | .forT x coll body filter =>
+    | .forE kx x coll keyE body filter group =>
       match ev env coll with
-      | .ok (.tuple vs) =>
-        let step (acc : Res × List V) (v : V) : Res × List V :=
-          let env' := (x, v) :: env
-          let keep : Res := match filter with
-            | none => .ok (.bool true)
-            | some f => match ev env' f with
-              | .ok fv => match asBool fv with
-                | some b => .ok (.bool b)
-                | none => .err .dyn
-              | r => r
-          let bodyR := ev env' body
-          match acc.1, keep, bodyR with
-          | .err _, _, _ | _, .err _, _ => (.err .dyn, [])
-          | _, .ok (.bool false), _ => acc                 -- the body of a filtered-out element is not evaluated
-          | _, _, .err _ => (.err .dyn, [])
-          | .inexact, _, _ | _, .inexact, _ | _, _, .inexact => (.inexact, [])
-          | .ok _, .ok _, .ok bv => (.ok .null, acc.2 ++ [bv])
-        match vs.foldl step (.ok .null, []) with
-        | (.ok _, out) => .ok (.tuple out)
-        | (.err _, _) => .err .dyn
-        | (.inexact, _) => .inexact
-      | .ok (.obj _) => .inexact      -- iteration over objects: outside this model
-      | .ok _ => .err .dyn
+      | .ok cv =>
+        match (if cv matches .null then none else elems cv) with
+        | none => .err .dyn                                  -- null or not iterable
+        | some kvs =>
+          -- (status, tuple results, object results, groups) over the elements, in iteration order
+          let step (acc : Res × List V × List (String × V) × List (String × List V)) (kvp : V × V) :
+              Res × List V × List (String × V) × List (String × List V) :=
+            let env' := match kx with
+              | some kn => (kn, kvp.1) :: (x, kvp.2) :: env
+              | none => (x, kvp.2) :: env
+            let keep : Res := match filter with
+              | none => .ok (.bool true)
+              | some f => match ev env' f with
+                | .ok .null => .err .dyn
+                | .ok fv => match asBool fv with
+                  | some b => .ok (.bool b)
+                  | none => .err .dyn
+                | r => r
+            match acc.1, keep with
+            | .err _, _ | _, .err _ => (.err .dyn, [], [], [])
+            | _, .ok (.bool false) => acc                    -- a filtered-out element: neither key nor value is evaluated
+            | st, keepR =>
+              let keyR : Res := match keyE with
+                | none => .ok .null
+                | some ke => match ev env' ke with
+                  | .ok .null => .err .dyn
+                  | .ok kv => match asTmplStr kv with
+                    | some s => .ok (.str s)
+                    | none => .err .dyn
+                  | r => r
+              let bodyR := ev env' body
+              match st, keepR, keyR, bodyR with
+              | _, _, .err _, _ | _, _, _, .err _ => (.err .dyn, [], [], [])
+              | .inexact, _, _, _ | _, .inexact, _, _ | _, _, .inexact, _ | _, _, _, .inexact => (.inexact, [], [], [])
+              | _, _, .ok (.str key), .ok bv =>
+                if group then
+                  let gs := if acc.2.2.2.any (·.1 == key)
+                    then acc.2.2.2.map fun (k, vs) => if k == key then (k, vs ++ [bv]) else (k, vs)
+                    else acc.2.2.2 ++ [(key, [bv])]
+                  (.ok .null, [], [], gs)
+                else if acc.2.2.1.any (·.1 == key) then (.err .dyn, [], [], [])      -- duplicate key without grouping
+                else (.ok .null, [], insertItem key bv acc.2.2.1, [])
+              | _, _, _, .ok bv => (.ok .null, acc.2.1 ++ [bv], [], [])
+          match kvs.foldl step (.ok .null, [], [], []) with
+          | (.ok _, ts, os, gs) =>
+            match keyE with
+            | none => .ok (.tuple ts)
+            | some _ =>
+              if group then .ok (.obj (gs.foldl (fun acc (k, vs) => insertItem k (.tuple vs) acc) []))
+              else .ok (.obj os)
+          | (.err _, _) => .err .dyn
+          | (.inexact, _) => .inexact
       | .err _ => .err .dyn
+      | r => r
+    | .anon => match env.lookup anonName with
+      | some v => .ok v
+      | none => .err .dyn
+    | .splat src each =>
+      match ev env src with
+      | .ok .null => .ok (.tuple [])                          -- a null that is not of a sequence type: no elements
+      | .ok sv =>
+        let items : List V := match sv with
+          | .tuple vs | .listv vs => vs
+          | v => [v]                                          -- anything else counts as a sequence of one
+        let rs := items.map fun it => ev ((anonName, it) :: env) each
+        if rs.any Res.isErr then .err .other
+        else if rs.any (fun r => match r with | .inexact => true | _ => false) then .inexact
+        else
+          let vs := rs.filterMap fun r => match r with | .ok v => some v | _ => none
+          match sv with
+          | .listv _ => .ok (.listv vs)
+          | _ => .ok (.tuple vs)
+      | .err _ => .err .other
+      | r => r
+    | .tmplS parts0 =>
+      let parts := normTmpl none parts0
+      match evalList parts with
+      | (.ok _, vs) =>
+        match vs.mapM asTmplStr with
+        | some ss => .ok (.str (String.join ss))
+        | none => .err .str
+      | (.err _, _) => .err .str
+      | (.inexact, _) => .inexact
+    | .join e =>
+      match ev env e with
+      | .ok (.tuple vs) =>
+        match vs.mapM asTmplStr with
+        | some ss => .ok (.str (String.join ss))
+        | none => .err .str
+      | .ok _ => .err .str
+      | .err _ => .err .str
       | r => r
     | .strip _ _ a => ev env a
     | .tmpl parts0 =>
